@@ -231,6 +231,7 @@ def run(tier, seed, replay=None):
                 f.write('Definition W := Eval vm_compute in (bool_decide (topo_wf T), bool_decide (online T = mkset %s)).\nPrint W.\n' % nlist(t['online']))
                 f.write('Definition M := Eval vm_compute in mismatches T cs.\nPrint M.\n')
                 f.write('Definition U := Eval vm_compute in unforced T cs.\nPrint U.\n')
+                f.write('Definition L := Eval vm_compute in level_hist T cs.\nPrint L.\n')
             files.append((name, k, p))
         if len(chk.samples) < 6 and cases:
             c, o = cases[len(cases) // 2], outs[len(cases) // 2]
@@ -238,6 +239,7 @@ def run(tier, seed, replay=None):
                                     result=machines_cpulist(o['run1']['result']), after=machines_cpulist(o['run1']['from']), err=o['run1']['err']))
     results = coq_eval_many([p for _, _, p in files], timeout=1500)
     n_exact = n_contract = 0
+    lvls = [0, 0, 0]
     for (name, k, p), (rc, out) in zip(files, results):
         m, u, w = parse_coq_print(out, 'M'), parse_coq_print(out, 'U'), parse_coq_print(out, 'W')
         if rc != 0 or m is None or u is None or w is None:
@@ -255,6 +257,9 @@ def run(tier, seed, replay=None):
             chk.corr_broken('%s case %d' % (name, i), 'model and implementation differ on %d case(s) of %s; first: case %d %s(from=%s, cnt=%d, prefer=%d, flags=%d): %s (%s)' % (
                 len(mm), name, i, c['op'], machines_cpulist(c['from']), c['cnt'], c['prefer'], c['flags'], kinds.get(v, v), p))
         nu = len(re.findall(r'-?\d+', u))
+        lv = parse_coq_print(out, 'L')
+        for i, x in enumerate(re.findall(r'\d+', (lv or '').replace('%N', ''))[:3]):
+            lvls[i] += int(x)
         ncs = min(len(all_cases[name]) - k, SHARD if len(topos[name]['cpuids']) <= 48 else SHARD // 3)
         n_contract += nu
         n_exact += ncs - nu - len(mm)
@@ -265,7 +270,7 @@ def run(tier, seed, replay=None):
              '(machine, op, candidate set, count, priority, flags) with 0 < count < |set| (the multi-stage chooser runs)',
         evaluations=nevals, distinct=len(distinct), traces=ncases,
         extra_cov={'machines': sizes, 'subset_kinds': tags, 'too_many_cases': stats['too_many'], 'out_of_domain_offline_cases_with_silent_failure': stats['ood_silent_failures'],
-                   'coq_case_files': len(files), 'cases_compared_exactly': n_exact, 'cases_compared_contract_level_only': n_contract,
+                   'coq_case_files': len(files), 'cases_compared_exactly': n_exact, 'cases_by_order_level': {'0_all_sorts_forced': lvls[0], '1_unforced_sort_le_12_elements': lvls[1], '2_order_not_predicted': lvls[2]}, 'cases_compared_contract_level_only': n_contract,
                    'exhaustive_subsets_for': [n for n, s in sizes.items() if tier != 'quick' and s['online'] <= 12]})
 
 
